@@ -93,6 +93,38 @@ def _export(history, verifier_free=True):
     return {'gens': gens, 'archive': arch, 'inds': inds, 'order': order}
 
 
+def stream_offsets(seed, uids):
+    """offset (in generator outputs) at which each uuid4 string starts in the stream of random.seed(seed):
+    urandom_mock(16) = 16 x getrandbits(8) = the top bytes of 16 consecutive 32-bit outputs; None = not there"""
+    import random
+    import uuid
+    out = {}
+    todo = list(uids)
+    for n in (1000000, 6000000):
+        r = random.Random(seed)
+        tops = bytes(r.getrandbits(32) >> 24 for _ in range(n))
+        for u in todo:
+            try:
+                b = uuid.UUID(u).bytes
+            except ValueError:
+                out[u] = None
+                continue
+            i = tops.find(b[:6])
+            hit = None
+            while i >= 0:
+                w = tops[i:i + 16]
+                if len(w) == 16 and (w[6] & 0x0f) == (b[6] & 0x0f) and w[7] == b[7] and (w[8] & 0x3f) == (b[8] & 0x3f) \
+                        and w[9:] == b[9:]:
+                    hit = i
+                    break
+                i = tops.find(b[:6], i + 1)
+            out[u] = hit
+        todo = [u for u in todo if out.get(u) is None]
+        if not todo:
+            break
+    return out
+
+
 def worker(job):
     import logging
     import random
@@ -198,6 +230,12 @@ def worker(job):
             out['n_initial'] = len(init)
             out['facade_n_jobs_in_requirements'] = golem.graph_requirements.n_jobs
             out['facade_mode'] = golem.graph_requirements.parallelization_mode
+    h = out['history']
+    out['offsets'] = stream_offsets(seed, list(h['inds']))
+    node_uids = sorted({n for r in h['inds'].values() for n in r['nodes']})
+    node_off = stream_offsets(seed, node_uids)
+    out['node_uids'] = len(node_uids)
+    out['node_uids_not_in_stream'] = sum(1 for v in node_off.values() if v is None)
     out['stagn'] = stagn
     out['pop_size_param'] = pop_size_param
     out['urandom'] = counts
@@ -229,7 +267,7 @@ if __name__ == '__main__' and len(sys.argv) >= 4 and sys.argv[1] == '--worker':
 # =================================================================================================
 # driver
 # =================================================================================================
-from common import c_Q, c_bool, c_list, c_nat, c_opt  # noqa: E402
+from common import c_Q, c_Z, c_bool, c_list, c_nat, c_opt  # noqa: E402
 
 LABELS = {'initial_assumptions': 'H.LInitial', 'extended_initial_assumptions': 'H.LExtended',
           'final_choices': 'H.LFinal', '': 'H.LNone'}
@@ -322,12 +360,13 @@ def export_to_coq(x):
         c_list(inds, 'oind'), nats(x['result']))
 
 
-def replay_of(group, base_res, base_x):
+def replay_of(group, base_res, base_x, canon):
     """how the base run was driven + the order in which its individuals were created"""
     cfg = group['cfg']
     kind = 'Populational' if cfg['optimiser'] in POPULATIONAL else 'RandomSearch'
     par = cfg.get('parallelization_mode', 'single') == 'populational' and kind == 'Populational'
     seen, new = set(), []
+    off = {canon.ix('uid', u): k_ for u, k_ in (base_res.get('offsets') or {}).items()}
     for gi, g in enumerate(base_x['gens']):
         fresh = [u for u in g['members'] if u not in seen]
         # the parallel dispatcher evaluates the reversed population: the first two generations are what the
@@ -338,9 +377,13 @@ def replay_of(group, base_res, base_x):
         for u in fresh:
             if u not in dedup:
                 dedup.append(u)
+        # the true creation order, when every identifier was located in the seeded stream
+        if all(off.get(u) is not None for u in dedup):
+            dedup.sort(key=lambda u: off[u])
         new.append(dedup)
         seen.update(g['members'])
     created = [u for l in new for u in l]
+    offsets = [off.get(u) if off.get(u) is not None else -1 for u in created]
     byuid = {r['uid']: r for r in base_x['inds']}
     parents = ['(%s, (%s, %s))' % (c_nat(u), nats(byuid[u]['parents']),
                                    'None' if byuid[u]['op'] is None else '(Some %s)' % OPS.get(byuid[u]['op'], 'H.OOther'))
@@ -366,14 +409,14 @@ def replay_of(group, base_res, base_x):
                   for n in range((max(ic) + 1) if ic else 0)]
     return ('{| rp_kind := %s; rp_parallel := %s; rp_n_jobs := %s; rp_num_gen := %s; rp_pop_size := %s; '
             'rp_max_stagn := %s; rp_multi := %s; rp_nmetrics := %s; rp_n_initial := %s; rp_created := %s; '
-            'rp_new := %s; rp_parents := %s; rp_stagn := %s; rp_fault := %s; rp_joblib_draws := %s; rp_iter_calls := %s |}' % (
+            'rp_new := %s; rp_parents := %s; rp_stagn := %s; rp_fault := %s; rp_joblib_draws := %s; rp_iter_calls := %s; rp_offsets := %s |}' % (
                 kind, c_bool(par), c_nat(cfg.get('n_jobs', 1)), c_opt(ngen, c_nat, 'nat'),
                 c_nat(psp[0] if psp else cfg.get('pop_size', 5)), c_opt(es or ngen, c_nat, 'nat'),
                 c_bool(bool(cfg['objective'].get('multi'))), c_nat(nmetrics), c_nat(n_initial), nats(created),
                 c_list([nats(l) for l in new], 'list nat'),
                 c_list(parents, 'nat * (list nat * option H.opkind)'), nats(stagn),
                 'None' if not fault else '(Some (%s, %s))' % (c_nat(fault['at']), c_nat(base_x['outcome'])),
-                nats(draws), nats(iter_calls)))
+                nats(draws), nats(iter_calls), c_list([c_Z(v) for v in offsets], 'Z')))
 
 
 def case_to_coq(replay, base_x, others):
@@ -538,7 +581,7 @@ def build_case(group, results):
         others.append((clause, name, x))
     side = ('CWorkersIsolated', 'CWorkersRepeat')
     coq_others = [(cl, x) for cl, _, x in others if cl not in side]
-    replay = replay_of(group, base, base_x) if group['family'] != 'facade' else None
+    replay = replay_of(group, base, base_x, canon) if group['family'] != 'facade' else None
     cases = [case_to_coq(replay, base_x, coq_others)]
     tags = [('main', base_x, [(cl, n, x) for cl, n, x in others if cl not in side])]
     j2 = [x for cl, n, x in others if n == 'j2']
